@@ -25,6 +25,8 @@ pub struct PointState {
     /// (point name, occurrence) -> error kind
     pub faults: HashMap<(String, u64), std::io::ErrorKind>,
     pub faults_hit: Vec<(String, u64)>,
+    /// every hit of the point "write" whose path contains this text fails ("device full")
+    pub fault_write_path: Option<String>,
     pub noise_seed: u64,
     pub noise_points: HashSet<String>,
 }
@@ -47,7 +49,7 @@ pub struct H {
     vnow_ns: AtomicI64,
     tick_ns: AtomicI64,
     births: Mutex<HashMap<(u64, u64), i64>>,
-    mode: AtomicU8,
+    pub mode: AtomicU8,
     pub points: Mutex<PointState>,
     pub park: Mutex<ParkState>,
     pub park_cv: Condvar,
@@ -210,6 +212,14 @@ impl Handler for H {
             }
             MODE_FAULT => {
                 let k = (name.to_string(), occ);
+                if name == "write" {
+                    if let (Some(sub), Some(p)) = (ps.fault_write_path.as_deref(), path) {
+                        if p.to_string_lossy().contains(sub) {
+                            ps.faults_hit.push(k);
+                            return Err(std::io::Error::new(std::io::ErrorKind::Other, "injected fault (device full)"));
+                        }
+                    }
+                }
                 if let Some(kind) = ps.faults.get(&k).copied() {
                     ps.faults_hit.push(k);
                     ps.trace.push((name, occ, path.map(Path::to_path_buf)));
